@@ -18,8 +18,11 @@ import (
 	"github.com/bytom/bytom/event"
 	"github.com/bytom/bytom/proposal"
 	"github.com/bytom/bytom/protocol"
+	"github.com/bytom/bytom/protocol/bc"
 	"github.com/bytom/bytom/protocol/bc/types"
 	"github.com/bytom/bytom/protocol/state"
+	"github.com/bytom/bytom/protocol/validation"
+	"github.com/bytom/bytom/protocol/vm"
 )
 
 type poolWatch struct {
@@ -349,8 +352,14 @@ func genCasePool(c *Ctx, mode string) {
 	if !nc.dead {
 		nc.propose()
 	}
+	// one of two implementation-only epilogues (their blocks are not registered with the
+	// ledger bookkeeping of the harness, so at most one runs)
 	if !nc.dead {
-		nc.proposeEpilogue()
+		if rng.Intn(3) == 0 {
+			nc.gasEpilogue()
+		} else {
+			nc.proposeEpilogue()
+		}
 	}
 	c.Distinct(fmt.Sprintf("pool-%d-%d", c.Seed, c.nOps))
 	c.Count(fmt.Sprintf("E=%d", E))
@@ -391,10 +400,20 @@ func (nc *nodeCase) proposeEpilogue() {
 		return
 	}
 	nc.c.Count("epilogue-timerange-submissions")
+	nc.proposeRaw(fmt.Sprintf("pool holds transactions with TimeRange = best height %d (+0,+1,+2)", best.Height))
+	nc.c.Count("epilogue-proposals")
+}
+
+// proposeRaw (implementation only): the real proposer builds a block on the best block and the
+// node processes it; a refusal is a C38 violation. Returns the block when it was accepted.
+func (nc *nodeCase) proposeRaw(context string) *types.Block {
+	n := nc.sut
+	best := n.chain.BestBlockHeader()
+	bestName := nc.nm.name(best.Hash())
 	bestHash := best.Hash()
 	ck, err := n.chain.PrevCheckpointByPrevHash(&bestHash)
 	if err != nil {
-		return
+		return nil
 	}
 	ts := best.Timestamp + nodeInterval
 	for slotOrder(ck.Timestamp, ts, len(nc.env.keys)) != nc.env.localIdx {
@@ -412,12 +431,115 @@ func (nc *nodeCase) proposeEpilogue() {
 		blk, perr = proposal.NewBlockTemplate(n.chain, v, nil, ts, 10*time.Second, 20*time.Second)
 	}()
 	if perr != nil || blk == nil {
-		nc.c.Fail("C38:proposer-fails", fmt.Sprintf("NewBlockTemplate with boundary TimeRange transactions in the pool failed on best %s: %v", bestName, perr))
-		return
+		nc.c.Fail("C38:proposer-fails", fmt.Sprintf("%s: NewBlockTemplate failed on best %s: %v", context, bestName, perr))
+		return nil
 	}
 	r := n.processBlock(blk)
 	if r.String() != "ok" {
-		nc.c.Fail("C38:proposed-block-rejected", fmt.Sprintf("pool holds transactions with TimeRange = best height %d (+0,+1,+2): the node rejects the block its own proposer built on %s: %v %s", best.Height, bestName, r.err, r.panic))
+		nc.c.Fail("C38:proposed-block-rejected", fmt.Sprintf("%s: the node rejects the block (%d transactions) its own proposer built on %s: %v %s", context, len(blk.Transactions), bestName, r.err, r.panic))
+		return nil
 	}
-	nc.c.Count("epilogue-proposals")
+	return blk
+}
+
+// gasEpilogue (implementation only, after the last op line): the pool is filled with more
+// gas-heavy transactions than one block's gas limit admits (several validation batches of the
+// proposer); every proposed block must pass the node's own validation.
+func (nc *nodeCase) gasEpilogue() {
+	n := nc.sut
+	const heavyN = 36
+	const heavyFee = uint64(300000 * 200) // buys the maximal gas of one transaction
+	const heavyOut = uint64(2000000)
+	best := n.chain.BestBlockHeader()
+	if _, known := nc.nm.blocks[nc.nm.name(best.Hash())]; !known {
+		return
+	}
+	bv := nc.branchView(nc.nm.name(best.Hash()))
+	var ins []string
+	var total uint64
+	need := heavyN*(heavyFee+heavyOut) + 2*ledgerFee
+	for _, in := range nc.spendable(bv, best.Height+1) {
+		if o := nc.ln.outs[in]; o.kind == 'n' {
+			ins = append(ins, in)
+			total += o.amount
+			if total >= need {
+				break
+			}
+		}
+	}
+	if total < need {
+		nc.c.Count("gas-epilogue-not-enough-funds")
+		return
+	}
+	burner := func(k int) []byte {
+		prog, err := vm.Assemble(fmt.Sprintf("%d $loop 1 SUB DUP JUMPIF:$loop NOT", k))
+		if err != nil {
+			panic(err)
+		}
+		return prog
+	}
+	mkSplit := func(prog []byte) *types.Tx {
+		data := types.TxData{Version: 1}
+		for _, in := range ins {
+			data.Inputs = append(data.Inputs, spendInputFor(nc.ln.outs[in]))
+		}
+		for i := 0; i < heavyN; i++ {
+			data.Outputs = append(data.Outputs, types.NewOriginalTxOutput(*consensus.BTMAssetID, heavyFee+heavyOut, prog, nil))
+		}
+		data.Outputs = append(data.Outputs, types.NewOriginalTxOutput(*consensus.BTMAssetID, total-heavyN*(heavyFee+heavyOut)-ledgerFee, []byte{0x51}, nil))
+		return finalizeTx(data)
+	}
+	mkHeavy := func(split *types.Tx, i int) *types.Tx {
+		id := *split.ResultIds[i]
+		e := split.Entries[id].(*bc.OriginalOutput)
+		data := types.TxData{Version: 1}
+		data.Inputs = append(data.Inputs, types.NewSpendInput(nil, *e.Source.Ref, *e.Source.Value.AssetId, e.Source.Value.Amount, e.Ordinal, e.ControlProgram.Code, e.StateData))
+		data.Outputs = append(data.Outputs, types.NewOriginalTxOutput(*consensus.BTMAssetID, heavyOut, []byte{0x51}, nil))
+		return finalizeTx(data)
+	}
+	gasOf := func(k int) int64 {
+		blk := &bc.Block{BlockHeader: &bc.BlockHeader{Height: best.Height + 2}}
+		gs, err := validation.ValidateTx(mkHeavy(mkSplit(burner(k)), 0).Tx, blk, n.chain.ProgramConverter)
+		if err != nil {
+			return -1
+		}
+		return gs.GasUsed
+	}
+	lo, hi := 1, 200000
+	if gasOf(lo) < 0 {
+		nc.c.Count("gas-epilogue-setup-failed")
+		return
+	}
+	for hi-lo > 1 {
+		if mid := (lo + hi) / 2; gasOf(mid) >= 0 {
+			lo = mid
+		} else {
+			hi = mid
+		}
+	}
+	if g := gasOf(lo); g*heavyN <= int64(consensus.MaxBlockGas) {
+		nc.c.Count("gas-epilogue-setup-failed")
+		return
+	}
+	split := mkSplit(burner(lo))
+	if _, err := n.chain.ValidateTx(split); err != nil {
+		nc.c.Count("gas-epilogue-split-refused")
+		return
+	}
+	if nc.proposeRaw("gas epilogue (split transaction in the pool)") == nil {
+		return
+	}
+	for i := 0; i < heavyN; i++ {
+		n.chain.ValidateTx(mkHeavy(split, i))
+	}
+	nc.c.Count("gas-epilogues")
+	for round := 0; round < 4; round++ {
+		blk := nc.proposeRaw(fmt.Sprintf("gas epilogue: %d transactions of maximal gas in the pool (more than one block admits)", heavyN))
+		if blk == nil {
+			return
+		}
+		if len(blk.Transactions) == 1 {
+			break
+		}
+	}
 }
